@@ -60,7 +60,7 @@ class Unit:
         self.notes = []
 
 
-DIRECTIVES = ('boxiter', 'assert', 'forwhile', 'selfparam', 'props', 'requires', 'ensures', 'loop', 'rewrite', 'rewrite*', 'insert', 'emit', 'attr', 'rename',
+DIRECTIVES = ('closure', 'fornext', 'boxiter', 'assert', 'forwhile', 'selfparam', 'props', 'requires', 'ensures', 'loop', 'rewrite', 'rewrite*', 'insert', 'emit', 'attr', 'rename',
               'ret', 'end', 'recommends', 'decreases', 'nocanary')
 
 
@@ -151,6 +151,13 @@ def parse_unit(path):
                 cur.selfparam = rest
             elif first == 'boxiter':
                 cur.boxiter = True
+            elif first == 'fornext':
+                cur.fornext = getattr(cur, 'fornext', []) + [int(x) for x in rest.split()]
+            elif first == 'closure':
+                m = re.match(r'`(.*?)`\s*sig:\s*(.*)$', rest, re.S)
+                if not m:
+                    err('bad closure directive')
+                cur.closure = (m.group(1), m.group(2).strip())
             elif first == 'assert':
                 m = re.match(r'([\w.\-]+)\s*(?:\[([^\]]*)\])?\s*(after|before|loopend)(?:\[(\d+)\])?\s*(?:`(.*?)`)?\s*:\s*(.*)$', rest, re.S)
                 if not m:
@@ -572,18 +579,32 @@ def emit_fn(asm, unit, fs, src, canary):
         hs, fn_kw, bo, bc = src.find_fn(fs.name, ibo + 1, ibc)
     else:
         hs, fn_kw, bo, bc = src.find_fn(fs.name)
+    closure_sig = None
+    if getattr(fs, 'closure', None):
+        # R10: a closure literal `ANCHOR { BODY }` inside the function is lifted into a named function whose
+        # parameters are the closure's parameters and captured variables (signature given by the unit file); BODY verbatim
+        anchor, closure_sig = fs.closure
+        j = find_unique(src, anchor, bo, bc + 1, f'closure in {fs.qual}')
+        cbo = src.next_code_char('{', j + len(anchor) - 1, bc)
+        if cbo < 0:
+            raise Lost(f'lost anchor: closure body after `{anchor}` in {fs.qual}')
+        cbc = src.match_close(cbo)
+        fn_kw, bo, bc = cbo, cbo, cbc
     orig_text = src.text[fn_kw:bc + 1]
     fhash = sha(orig_text)
     ed = Edited(src, fn_kw, bc + 1)
+    if closure_sig:
+        ed.add(fn_kw, fn_kw, closure_sig + ' ', ('rw', 'R10'))
     log = []
     item_ty = 'usize'
     if fs.impl != '-':
         for m in src.find_code(r'\btype\s+Item\s*=\s*([^;]+);', ibo, ibc):
             item_ty = m.group(1).strip()
-    if fs.rename:
+    if fs.rename and not closure_sig:
         m = re.compile(r'fn\s+(\w+)').match(src.text, fn_kw)
         ed.add(m.start(1), m.end(1), fs.rename, ('rw', 'R0-name'))
-    sig_return_edit(src, ed, fn_kw, bo, fs.ret)
+    if not closure_sig:
+        sig_return_edit(src, ed, fn_kw, bo, fs.ret)
     # per-site rewrites
     for rule, old, new, multi in fs.rewrites:
         if isinstance(multi, tuple):
@@ -684,6 +705,27 @@ def emit_fn(asm, unit, fs, src, canary):
             ed.edits.append((pos, pos, ' ); }\n', ('gen',)))
     # loops
     loops = src.loops(bo, bc)
+    for where, anchor, text in fs.inserts:
+        if where in ('loopend', 'loopstart'):
+            if anchor >= len(loops):
+                raise Lost(f'lost anchor: {fs.qual} has {len(loops)} loops, insert addresses loop {anchor}')
+            kw_start, kw, lbo, lbc = loops[anchor]
+            pos = lbc if where == 'loopend' else lbo + 1
+            ed.edits.append((pos, pos, '\n' + text + '\n', ('proof', fs.qual)))
+    for n in getattr(fs, 'fornext', []):
+        # R11d: `for X in E { B }` over an iterator without a vstd for-loop specification
+        #       -> `let mut it = E; loop { let X = match it.next() { Some(v) => v, None => break }; B }` (definition of `for`)
+        if n >= len(loops):
+            raise Lost(f'lost anchor: {fs.qual} has {len(loops)} loops, fornext addresses loop {n}')
+        kw_start, kw, lbo, lbc = loops[n]
+        hdr = src.text[kw_start:lbo]
+        m0 = re.match(r'for\s+(\w+)\s+in\s+(.+?)\s*$', hdr, re.S)
+        if kw != 'for' or not m0 or re.search(r'\bcontinue\b', src.text[lbo:lbc]):
+            raise Lost(f'{fs.qual}: loop {n} is not a simple `for X in E` without `continue` (R11d not applicable)')
+        x, e = m0.group(1), m0.group(2)
+        ed.add(kw_start, lbo, f'let mut verif_it_{x} = {e}; loop ', ('rw', 'R11d'))
+        ed.edits.append((lbo + 1, lbo + 1, f' let {x} = match verif_it_{x}.next() {{ Some(v) => v, None => {{ break; }} }};', ('rw', 'R11d')))
+        log.append('R11d')
     # R11b: `for` over a range / enumerate()d slice that is left by `break` -> the equivalent `while`
     for n in getattr(fs, 'forwhile', []):
         if n >= len(loops):
@@ -734,13 +776,6 @@ def emit_fn(asm, unit, fs, src, canary):
                              ('canary', f'{fs.qual}.loop{n}')))
     if len(loops) and canary:
         pass
-    for where, anchor, text in fs.inserts:
-        if where in ('loopend', 'loopstart'):
-            if anchor >= len(loops):
-                raise Lost(f'lost anchor: {fs.qual} has {len(loops)} loops, insert addresses loop {anchor}')
-            kw_start, kw, lbo, lbc = loops[anchor]
-            pos = lbc if where == 'loopend' else lbo + 1
-            ed.edits.append((pos, pos, '\n' + text + '\n', ('proof', fs.qual)))
     # every loop must carry a decreases (Verus insists); unaddressed loops are reported by Verus itself.
     pieces = ed.render()
     # header
